@@ -316,6 +316,31 @@ pub fn run(ctx: &Ctx, rep: &mut Report) {
         let text = parts.join(" ");
         check(&text, &format!("unknown:{}", i), before, rep);
     });
+    // a failing primary at the head of a very long input (70-300 KiB follow it): whatever is re-read to
+    // build the message must not depend on how much input remains
+    let n_huge = ctx.pick(1, 60) + 4;
+    par_cases(ctx, "hugetail", n_huge, rep, |i, rep| {
+        let mut r = Rng::for_case(ctx.seed, "hugetail", i);
+        let kw = kws[r.usize(kws.len())];
+        let bad = match bad_arg_for(kw.lang, &mut r) {
+            Some(b) => b,
+            None => return,
+        };
+        // quoted spelling with a blank inside now and then (the word has to be re-read with its quotes)
+        let arg = if r.chance(1, 2) && !bad.contains('\'') && !bad.contains('"') { format!("'{} doe'", bad) } else { bad };
+        let failing = if kw.lang == Lang::WordFormat { format!("{} f {}", kw.word, arg) } else { format!("{} {}", kw.word, arg) };
+        let reps = (70_000 + r.usize(230_000)) / 8;
+        let mut text = String::with_capacity(reps * 8 + 64);
+        if r.chance(1, 2) {
+            text.push_str("-true ");
+        }
+        text.push_str(&failing);
+        for _ in 0..reps {
+            text.push_str(" -uid 5");
+        }
+        rep.count("huge_tail_inputs");
+        check(&text, &format!("hugetail:{}", i), 1, rep);
+    });
     if ctx.only.is_none() {
         rep.floor("missing-, bad-argument and unknown-word messages all observed", rep.get("missing_argument_messages") > 50 && rep.get("bad_argument_messages") > 50 && rep.get("unknown_word_messages") > 50);
     }
